@@ -74,8 +74,15 @@ def agg_case(draw, tier):
                    or (pat == "random" and draw(st.integers(0, 3)) == 0))
             nanmask.append(isn)
     n = len(vals)
+    # groups of very different magnitude next to each other (each group is
+    # judged relative to its own inputs)
+    gscale = None
+    if regime != "zeros" and draw(st.integers(0, 2)) == 0:
+        gscale = [draw(st.sampled_from([1., 1., 1e16, 1e-9, 1e9, 1e-12, 1e-3,
+                                        2.**60, 1e150]))
+                  for _ in runs]
     return {"runs": runs, "gaps": gaps, "offset": offset, "spread": spread,
-            "vals": vals,
+            "vals": vals, "gscale": gscale,
             "nan": nanmask, "op": draw(st.integers(0, 3)),
             "maxnan": draw(st.integers(0, max(runs) + 1)),
             "drop_at": draw(st.integers(0, n - 1)),
@@ -94,6 +101,8 @@ def build(case):
         cur += g
     idx = np.array(idx, dtype=np.int64)
     x = np.array(case["vals"], dtype=np.float64)
+    if case.get("gscale"):
+        x = x * np.repeat(np.array(case["gscale"]), case["runs"])
     x[np.array(case["nan"], dtype=bool)] = np.nan
     return idx, x
 
@@ -102,6 +111,8 @@ def agg_oracle(case):
     idx, x = build(case)
     op, maxnan = case["op"], case["maxnan"]
     labels = [f"op:{op}", f"regime:{case['regime']}"]
+    if case.get("gscale") and len(set(case["gscale"])) > 1:
+        labels.append("groups-of-different-magnitude")
     if idx.min() < I32MIN or idx.max() > 2**31 - 1:
         raise Skip()
     # the index passed as int64 / int32 array, list, pandas object or view
@@ -149,7 +160,7 @@ def agg_oracle(case):
                 raise Violation(f"sum of an all-missing group = {out[k]!r}")
             continue
         exp = [valid.sum(), valid.mean(), valid.max(), valid[-1]][op]
-        if not abs(out[k] - exp) <= 1e-9 * max(1., np.abs(valid).sum()):
+        if not abs(out[k] - exp) <= 1e-12 * np.abs(valid).sum():
             raise Violation(
                 f"aggregate(op={op}, maxnan={maxnan}) group {k} "
                 f"{xs.tolist()} -> {out[k]!r}, expected {exp!r}")
@@ -178,7 +189,7 @@ def agg_oracle(case):
         if (~nn).sum() == 0:
             continue
         m = xs[~nn].mean()
-        sc = 1e-9 * max(1., np.abs(xs[~nn]).sum())
+        sc = 1e-12 * np.abs(xs[~nn]).sum()
         if not np.all(np.abs(fs[~nn] - m) <= sc):
             raise Violation(f"flathomogen group {k} {xs.tolist()} -> "
                             f"{fs.tolist()}, expected mean {m!r}")
